@@ -303,6 +303,18 @@ fn execute(case: &Case) -> CaseResult {
         let mut failed = false;
         for (step, &who) in sch.iter().enumerate() {
             let who = who as usize;
+            // ---- a second crash two steps after the first one (a save of a loaded multi-flow state)
+            if fault_done && fault_kind == 1 && step == fault_pos + 2 && (si / 5) % 2 == 0 {
+                let r1 = h.apply(&Op::Save(1));
+                let r2 = h.apply(&Op::CrashRestore(1));
+                if matches!(r1, Res::Ok(_)) && matches!(r2, Res::Ok(_)) {
+                    res.stats.inc("fault.second_crash_restore.fired");
+                } else if let Res::Panic(s, m) = &r2 {
+                    res.fail(Violation::new("C10", "panic", s, &crate::host::norm_msg(m)).with(format!("schedule {sch_str}, second crash-restore before step {step}"), "Ok".into(), r2.brief()));
+                    failed = true;
+                    break;
+                }
+            }
             // ---- fault injection point
             if !fault_done && step == fault_pos && fault_kind != 0 {
                 fault_done = true;
